@@ -198,7 +198,12 @@ def deb822Wrap (le : Option (DNode → DNode → Bool)) (wrapPara : Option (DNod
     | none => g.1
   match mapM' (fun (pp : List DNode × DNode) =>
       match allTokens pp.1, (match wrapPara with | some w => w pp.2 | none => some pp.2) with
-      | some pre, some p' => some (withNewlines pre ++ [p'])
+      | some pre, some p' =>
+        -- an unterminated paragraph gets its line terminator (a NEWLINE token under the root)
+        let term : List DNode := match (leavesList [p']).getLast? with
+          | some t => if t.1 == .NEWLINE then [] else [Node.tok .NEWLINE ['\n']]
+          | none => []
+        some (withNewlines pre ++ [p'] ++ term)
       | _, _ => none) paras, allTokens g.2 with
   | some groups, some trailing => some (.node .ROOT (joinParas groups ++ withNewlines trailing))
   | _, _ => none
